@@ -670,7 +670,7 @@ T6: return;
 {
 M0: while (TRUE) {
        either {
-          await Mode = "trace" /\ HasLine /\ CurLine.k = "reset";
+          await Mode = "trace" /\ HasLine /\ CurLine.k = "reset" /\ CurLine.live = 0 /\ CurLine.bad = 0;   \* everything the destroyed machines held is gone
           l := l + 1; wasreset := TRUE;
           active := [ii \in Insts |-> [mm \in Machines |-> MD(mm).init]];
           running := [ii \in Insts |-> [mm \in Machines |-> FALSE]];
